@@ -3,7 +3,7 @@ documented ranges, population sizes the template's own operators can work on) an
 checked at the end of every pass of the main loop (DESIGN §6 C16)."""
 
 REAL = lambda dim=2, f=0, lo=-1.0, hi=1.0: {"kind": "real", "f": f, "dim": dim, "lo": lo, "hi": hi}
-BITS = lambda dim=8: {"kind": "bits", "dim": dim}
+BITS = lambda dim=8, f=0: {"kind": "bits", "dim": dim, "f": f}
 TSP = lambda dim=5, f=0: {"kind": "tsp", "f": f, "dim": dim}
 
 
@@ -215,7 +215,11 @@ def component_specs(quick, seeds, iters):
                     out.append({"run": len(out), "template": "comp:" + c, "params": {"popsize": 4, "select": 0, "pc": 1.0, "rm": 1.0,
                                 "dev": 0.6 * (pr["hi"] - pr["lo"])}, "n": n, "seed": s, "eval": "seq", "prob": pr,
                                 "size_lo": 0, "size_hi": 10 ** 6})
-    for comps, prob in ((real, REAL(3, 1, -4.0, 12.0)), (bits, BITS(8)), (perm, TSP(6))):
+    # objectives that depend on WHERE a gene sits (weighted zeros; weighted completion times of a schedule, which is
+    # not even rotation invariant), shortest containers included: moves across the container boundary are frequent
+    groups = [(real, REAL(3, 1, -4.0, 12.0)), (bits, BITS(8)), (perm, TSP(6)),
+              (bits, BITS(3, 1)), (perm, TSP(2, 5)), (perm, TSP(3, 5)), (perm, TSP(6, 5))]
+    for comps, prob in groups:
         for c in comps:
             for popsize, select in shapes:
                 for pc in (pcs if "Crossover" in c else [1.0]):
